@@ -286,7 +286,30 @@ def judge(acc, case, func, da, db, a, b, param, before_a, before_b, ids, outcome
     if bad:
         acc.violation(f'{sigpfx}/postcondition/{func}/{"+".join(sorted(k.split(".")[-1] for k in bad))}',
                       'accepted relation: mutual links, roles, ratio, efficiency, self-locking flag', case, bad)
+    # frame: the relation the MASTER has with its own driver (link, ratio, efficiency) and the link of the SLAVE to what
+    # it drives are not part of this declaration; only a worm mating says anything about a self-locking flag
+    after_a, after_b = public_snapshot(a, ids), public_snapshot(b, ids)
+    frame = {}
+    if not same_obj(a, b):
+        for k in ('driven_by', 'master_gear_ratio', 'master_gear_efficiency'):
+            if k in before_a and before_a[k] != after_a.get(k):
+                frame[f'master.{k}'] = (before_a[k], after_a.get(k))
+        if 'drives' in before_b and before_b['drives'] != after_b.get('drives'):
+            frame['slave.drives'] = (before_b['drives'], after_b.get('drives'))
+        if func != 'worm':
+            for who, bef, aft in (('master', before_a, after_a), ('slave', before_b, after_b)):
+                # (never flagged and flagged False are the same statement: only a flag that changes its truth value counts)
+                if 'self_locking' in bef and bool(bef['self_locking']) != bool(aft.get('self_locking')):
+                    frame[f'{who}.self_locking'] = (bef['self_locking'], aft.get('self_locking'))
+    if frame:
+        acc.violation(f'{sigpfx}/frame/{func}/{"+".join(sorted(frame))}',
+                      'a declaration sets the relation between its two elements and nothing else they carry', case,
+                      {k: [str(x) for x in v] for k, v in frame.items()})
     return True
+
+
+def same_obj(a, b):
+    return a is b
 
 
 EFFS = [-0.1, 0, 0.5, 1, 1.1, '0.9', ['np', 0.9], ['nan']]
